@@ -36,6 +36,7 @@ class Unit:
     z3_timeout_ms: Optional[int] = None
     note: str = ""
     bounded_always: bool = False                          # run the bounded stand-in on every run (its failures are concrete inputs)
+    reg_factory: Optional[Callable] = None                # registry (theories/config) of the module the harness was written for
 
 
 class H:
@@ -173,7 +174,7 @@ def explore_unit(unit: Unit, cfg: Config, known: Dict[str, List[str]], repo: Rep
         out["inlined"] = sorted(out["inlined"])
         return out
     work: List[List[Any]] = [[]]
-    factory = _REG_FACTORY.get(unit.prop, base_registry)
+    factory = unit.reg_factory or _REG_FACTORY.get(unit.prop, base_registry)
     while work:
         dec = work.pop()
         out["paths"] += 1
